@@ -184,7 +184,9 @@ def run_e2e(coro):
 
     async def main(lp):
         return await coro
+    if E2E.get('connect_script'): loop.connect_script = list(E2E.pop('connect_script'))      # outcomes of the TCP connection attempts of this call
     lp, out = V.run(main, loop)
+    E2E['open_after_return'] = getattr(lp, 'open_after_return', None)
     if out[0] == 'ok': return out[1]
     if out[0] == 'exc': raise out[1]
     raise RuntimeError('the call never returns: ' + str(out[1])[:200])
